@@ -399,5 +399,74 @@ class PlainCall(common.Suite):
         return f"n={len(case['moves'])},ok={obs.get('result')}"
 
 
+class EmptyComposites(common.Suite):
+    """composites with no element (the constructor and `from_dict` build them; `+` and `*` alone never do) are operands like
+    any other: `empty * n` is an empty composite of the same class for every positive integer n, `empty + x` holds x's
+    elements; and a repeat count that is not an integer scalar (a 0-d or 1-element array, a float) is refused whatever the
+    composite holds. Oracle only (the model's composites are their element lists)."""
+
+    name = "empty-composites"
+
+    def cases(self, rng, tier):
+        for cls in ("CompositeMove", "CompositeDisplacementMove", "CompositeExchangeMove", "CompositeOperation"):
+            for n in (1, 2, 3, 7):
+                for how in ("int", "np.int64"):
+                    yield {"cls": cls, "op": "mul", "n": n, "how": how}
+            yield {"cls": cls, "op": "add-empty"}
+            yield {"cls": cls, "op": "add-one"}
+            for bad in ("array0d", "array1", "float", "zero", "negative"):
+                yield {"cls": cls, "op": "bad", "bad": bad}
+
+    def real(self, case):
+        import warnings
+
+        import numpy as np
+        import quansino.mc  # noqa: F401
+        from quansino.moves.composite import CompositeMove
+        from quansino.moves.displacement import CompositeDisplacementMove, DisplacementMove
+        from quansino.moves.exchange import CompositeExchangeMove, ExchangeMove
+        from quansino.operations.composite import CompositeOperation
+        from quansino.operations.displacement import Ball
+
+        C = {"CompositeMove": CompositeMove, "CompositeDisplacementMove": CompositeDisplacementMove,
+             "CompositeExchangeMove": CompositeExchangeMove, "CompositeOperation": CompositeOperation}[case["cls"]]
+        one = {"CompositeMove": lambda: DisplacementMove(np.arange(2)), "CompositeDisplacementMove": lambda: DisplacementMove(np.arange(2)),
+               "CompositeExchangeMove": lambda: ExchangeMove(np.arange(2)), "CompositeOperation": lambda: Ball(0.1)}[case["cls"]]()
+        elems = lambda v: list(getattr(v, "moves", None) if hasattr(v, "moves") else v.operations)  # noqa: E731
+        with warnings.catch_warnings():
+            warnings.simplefilter("ignore")
+            try:
+                if case["op"] == "mul":
+                    n = case["n"] if case["how"] == "int" else np.int64(case["n"])
+                    r = C([]) * n
+                elif case["op"] == "add-empty":
+                    r = C([]) + C([])
+                elif case["op"] == "add-one":
+                    r = C([]) + C([one])
+                else:
+                    n = {"array0d": np.array(2), "array1": np.array([2]), "float": 2.0, "zero": 0, "negative": -1}[case["bad"]]
+                    r = C([one]) * n
+            except (TypeError, ValueError) as e:
+                return {"raised": type(e).__name__}
+        return {"raised": None, "cls": type(r).__name__, "n": len(elems(r)),
+                "same": all(x is one for x in elems(r))}
+
+    def oracle(self, case, obs):
+        if "exception" in obs:
+            return [("empty-composite:unexpected-exception:" + obs["exception"], obs.get("message", ""))]
+        tag = f"{case['cls']}:{case['op']}"
+        if case["op"] == "bad":
+            return [] if obs["raised"] else [(f"empty-composite:bad-count-accepted:{case['bad']}", f"{tag}: {obs}")]
+        if obs["raised"]:
+            return [(f"empty-composite:valid-expression-refused:{case['op']}", f"{tag} with {case.get('n')}: {obs['raised']}")]
+        want_n = 1 if case["op"] == "add-one" else 0
+        if obs["cls"] != case["cls"] or obs["n"] != want_n or not obs["same"]:
+            return [(f"empty-composite:result:{case['op']}", f"{tag}: {obs}")]
+        return []
+
+    def classify(self, case, obs):
+        return f"{case['cls']}:{case['op']}"
+
+
 def suites(tier):
-    return [MoveAlgebra(), OperationAlgebra(), PlainCall()]
+    return [MoveAlgebra(), OperationAlgebra(), PlainCall(), EmptyComposites()]
